@@ -107,8 +107,11 @@ def rand_amp(r, cplx):
         v = (round((r.uniform() - 0.5) * 4, 6) or 0.37) * SCALE[0]
     else:
         v = r.choice([1.0, -1.0, 0.5, 2.0]) * SCALE[0]
+    if r.chance(1, 8):
+        # weak coupling next to O(1) scales: eigenvector components / residues of order 1e-3 ... 1e-7
+        v *= 2.0 ** -r.choice([10, 14, 17, 24])
     if cplx and r.chance(1, 2):
-        return complex(v, nonzero_dyadic(r))
+        return complex(v, nonzero_dyadic(r) * (abs(v) if abs(v) < 1e-2 else 1.0))
     return v
 
 
